@@ -3,4 +3,4 @@ NEXT Next
 CONSTANTS
   Depth = 3
   Shapes = {0, 2, 7}
-INVARIANTS DesignOK EmitVec
+INVARIANTS DesignOK BlocksOK EmitVec
